@@ -29,6 +29,8 @@ func main() {
 		devRun(os.Args[2:])
 	case "check":
 		os.Exit(checkMain(os.Args[2:]))
+	case "xsolver":
+		os.Exit(xsolverMain(os.Args[2:]))
 	case "replay":
 		os.Exit(replayMain(os.Args[2:]))
 	default:
